@@ -130,6 +130,14 @@ pub(crate) struct BlockRecord {
     data: Vec<u8>,
 }
 
+#[cfg(feature = "verif")]
+impl BlockRecord {
+    /// Verification hook: (block type as its wire byte, payload).
+    pub(crate) fn parts_for_verif(&self) -> (u8, Vec<u8>) {
+        (self.block_type as u8, self.data.clone())
+    }
+}
+
 /// Crate-only methods
 impl BlockRecord {
     pub(crate) fn new(length: u16, block_type: BlockType, data: Vec<u8>) -> Self {
